@@ -4,6 +4,7 @@ pub mod bbs;
 pub mod cl;
 pub mod clmath;
 pub mod engine;
+pub mod fuzz_entry;
 pub mod fuzzdrv;
 pub mod gen;
 pub mod props;
